@@ -562,6 +562,14 @@ def _sqrt(x):
     return math.sqrt(x)
 
 
+def _atan_off_cut(z):
+    # arctan has branch cuts on the imaginary axis beyond +-i: for a value exactly on the axis the side is
+    # decided by the sign of its zero real part, an artefact of how the value was computed
+    if z.real == 0 and abs(z.imag) >= 1:
+        raise RefError('branchcut')
+    return cmath.atan(z)
+
+
 REF_FUNCTIONS = {
     'sin': _real_or_complex(math.sin, cmath.sin),
     'cos': _real_or_complex(math.cos, cmath.cos),
@@ -573,7 +581,7 @@ REF_FUNCTIONS = {
     'conj': lambda x: (x.conjugate() if isinstance(x, complex) else x) if not is_arr(x) else np.conj(x),
     'tanh': _real_or_complex(math.tanh, cmath.tanh),
     'cosh': _real_or_complex(math.cosh, cmath.cosh),
-    'arctan': _real_or_complex(math.atan, cmath.atan),
+    'arctan': _real_or_complex(math.atan, lambda z: _atan_off_cut(z)),
 }
 
 USER_FUNCTIONS_REF = {
